@@ -10,7 +10,7 @@ def run(ctx):
     res = PropResult("C06")
     res.level = "proof"
     kinds = {}
-    crates = [("catalogue+lib/default", ctx.corpus("catalogue")["deserr"])]
+    crates = [("catalogue+lib/default", ctx.libcrate("deserr"))]
     for cfg in ctx.lib_configs():
         if cfg != "default":
             crates.append(("lib/" + cfg, ctx.lib(cfg)["deserr"]))
